@@ -269,11 +269,11 @@ TRUSTED = [
     "fix dfe4d54 - and the loop before that fix as the variant drain = false; the limiter's 429 / the 409 answer: send_direct), "
     "SendKind::send (range application incl. the 416 replacement - skipped for streamed responses -, the overridden length, "
     "ensure_length, ensure_version, resolve_package, then the OPERATIONS ON THE PIPE in order: send_response(head, false), the body "
-    "unless HEAD, the future's writes - not for HEAD: fix 572c88a, head_future = true is the code before -, close), src/application.rs "
+    "unless HEAD, the future's writes - not for HEAD: fix d63bba7, head_future = true is the code before -, close), src/application.rs "
     "ResponsePipe::{ensure_length, ensure_version, send_response} and ResponseBodyPipe::{send_with_maybe_close, close} HTTP/1 and "
     "HTTP/2 arms (connection: keep-alive rule, remove_connection_specific_headers, END_STREAM, send_data failing on an ended stream), "
     "Body::read_to_bytes HTTP/1 (Http1Body) and HTTP/2 (the DATA-frame loop) arms; utils::get_body_length_request; "
-    "extensions::stream_body's range arithmetic (stream_plan; fix 7cbe1e5, clamp = false is the code before); "
+    "extensions::stream_body's range arithmetic (stream_plan; fix d675f8a, clamp = false is the code before); "
     "h2 0.4 proto/streams/send.rs check_headers (the only h2 logic transcribed)",
     "NOT modelled, exercised only: rustls (handshake, records, ALPN selection), h2 (HPACK, flow control incl. the WINDOW_UPDATEs "
     "Body::read_to_bytes releases, the windows a 1 MiB / streamed 81 kB answer needs, and the RST_STREAM(NO_ERROR) after an answer "
@@ -318,8 +318,8 @@ LEVEL_TEXT = ("partial. Machine-checked Coq theorems (25, statements pinned) ove
               "ordinary, streamed and limiter-answered exchanges - equals its specification on every input of the domain); and "
               "six witnesses: head_end_of_stream_refuted (why the head must not carry END_STREAM when Response::body is empty), "
               "unread_request_body_v0_refuted (the loop before fix dfe4d54), head_stream_v0_refuted (before fix "
-              "572c88a a HEAD for a streamed response got the streamed bytes: broken framing on both protocols), "
-              "stream_body_v0_refuted (before fix 7cbe1e5 stream_body announced more bytes than it sent for a Range beyond the "
+              "d63bba7 a HEAD for a streamed response got the streamed bytes: broken framing on both protocols), "
+              "stream_body_v0_refuted (before fix d675f8a stream_body announced more bytes than it sent for a Range beyond the "
               "file), undeclared_request_body_refuted and second_read_refuted (the two known classes). The model is tied to /repo "
               "on every run by real TLS loopback connections through kvarn::handle_connection with an HTTP/1.1 and an HTTP/2 "
               "client (full wire answers vs. the extracted model, parity and specification oracles; streamed responses, every "
@@ -329,7 +329,7 @@ LEVEL_TEXT = ("partial. Machine-checked Coq theorems (25, statements pinned) ove
               "by that run: everything inside the h2 and rustls crates - HPACK, flow control, frame splitting and scheduling, stream "
               "state machine, RST_STREAM handling, TLS and ALPN - and the tokio scheduler; the concurrency theorem is about "
               "sequentially consistent interleavings of two atomic blocks per task. Two kvarn defects found by this round were "
-              "repaired (572c88a, 7cbe1e5) and are part of the claim, as is the former known class h1-unread-request-body (dfe4d54). "
+              "repaired (d63bba7, d675f8a) and are part of the claim, as is the former known class h1-unread-request-body (dfe4d54). "
               "Two known classes, both outside the property's quantifier: h1-undeclared-request-body (kvarn's HTTP/1 reader ignores "
               "the content-length of GET / HEAD / OPTIONS by design, so body bytes of a GET that arrive after its head break the "
               "HTTP/1.1 connection and not the HTTP/2 one) and h2-body-read-again (a handler calling read_to_bytes a second time "
